@@ -6,7 +6,20 @@ specs : KernelCalls.tla  - the interface (src/_cImageD11.pyf): for every exporte
                            on the small shapes, on thin strips (N x 3, N x 5, 3 x N, 5 x N) and on every list size,
                            tagged by the relation of nt to the trip count (one / more threads than elements / a
                            remainder to hand out / exact shares / shares that are multiples of 64); PartitionInv
-                           (the hand-written split of localmaxlabel tiles 0..npx-1), ThreadInv
+                           (the hand-written split of localmaxlabel tiles 0..npx-1), ThreadInv.
+                           Options: ScalarArgs lists every scalar argument of every kernel with the dimension that
+                           carries it (compared with the f2py signatures of the built module); every integer scalar is
+                           a dimension; verbose in {0, 1, 2, 11} x every small shape / content / parameter class.
+                           Runtime: OmpEnvs, OpenMP environments in which the delivered team is not
+                           omp_get_max_threads() (OMP_NUM_THREADS=8 OMP_THREAD_LIMIT=3; 16 + OMP_DYNAMIC; 5, limit 2,
+                           dynamic,1) x every kernel with a size on its large sizes (lists of 8 / 24 chunks of 4096).
+                           Callers: the Python functions / caching objects that allocate the kernels' work arrays
+                           (sparseframe.overlaps_linear / overlaps_matrix / overlaps, the frame functions,
+                           SparseScan.cplabel / lmlabel, labelimage) x label numbering (per frame; running through the
+                           scan with the largest label exactly at / one above the allocated capacity / 100000 above
+                           the pixel count) x capacity (default / tight / 1) x verbose; Extents = the preconditions of
+                           each kernel that f2py does not enforce; WrapperInv (the callers' allocation rule meets
+                           compress_duplicates' precondition), OptionInv
         ConnPix (+Dset), SparseCP, LocalMax, SparseCoo, SparseOverlaps, Merge3D, ScoreRefine, ScoreAssign
                          - the kernel models, re-run here at their boundary scopes with their InBounds / DsInv /
                            NoPoisonRead / Defined invariants; their emitted cases carry exact expectations (replayed
@@ -22,9 +35,20 @@ binding: every emitted descriptor / case is executed on the real kernels built w
         on the sanitizer build; besides poison and reference each promised output is compared with the single-thread
         result of the same call.  The set ParK is compared with the `#pragma omp parallel` regions of the tree's
         src/*.c; every kernel of ParK must have been executed in each of the five thread-count relations.
-verdict: sanitizer report, surviving poison / NaN in a promised output, output differing from model / reference, or
-        output depending on the number of threads = VIOLATION (replay file = the descriptor); `--replay` re-runs it
-        on the build it failed on and on the sanitizer build.
+        Descriptors with verbose > 0 and the callers' descriptors run on the sanitizer build (stdout swallowed; quick: a
+        seeded choice per (kernel, verbose, shape, content), all overlap-caller descriptors); inside the child every
+        kernel attribute of ImageD11.cImageD11 is guarded (harness/c20_wrappers.py): on each call made by Python code
+        of the library - the callers above and the callers the re-used kernel models drive - the preconditions of
+        KernelCalls!Extents are evaluated on the actual arguments before the kernel is entered.  Descriptors with an
+        OpenMP environment run in child processes started under that environment (normal build), each call first on
+        one thread, then with what the environment delivers, outputs poisoned, results compared.  Vacuity: every option
+        / verbose value of every kernel executed, every caller went through exactly the kernels Calls(w) names, each
+        environment compared at least 10 results.  The sanitizer children (three shares of the descriptors + the model
+        cases) and the normal-build children run side by side.
+verdict: sanitizer report, surviving poison / NaN in a promised output, output differing from model / reference,
+        output depending on the number of threads or on the OpenMP environment, or a kernel precondition violated by a
+        Python caller = VIOLATION (replay file = the descriptor); `--replay` re-runs it
+        on the build (and under the environment) it failed on and on the sanitizer build.
 """
 import os, sys, json, subprocess, time, threading, re, glob
 import numpy as np
@@ -105,7 +129,7 @@ def model_runs(tier):
 
 def run_all_tlc(chk, tier):
     """KernelCalls + the kernel models, a few JVMs at a time; returns (descriptor lines, interface record, model lines)"""
-    jobs = [("KernelCalls %s (TypeOK, WellFormedInv)" % tier, "KernelCalls",
+    jobs = [("KernelCalls %s (TypeOK, WellFormedInv, PartitionInv, ThreadInv, OptionInv, WrapperInv)" % tier, "KernelCalls",
              os.path.join(common.SPECS, "KernelCalls_%s.cfg" % ("q" if tier == "quick" else "t")), "kc", None)]
     jobs += model_runs(tier)
     results = [None] * len(jobs)
@@ -147,7 +171,8 @@ def run_all_tlc(chk, tier):
             recs = [json.loads(line) for line in res2.printed]
         if src == "kc" and tier == "thorough":
             need = ["PickKernel", "PickShape", "PickBigShape", "PickStripShape", "PickContent", "PickContent2", "PickSize",
-                    "PickSize2", "PickParam", "PickOption", "PickThreads", "PickHugeShape", "Finish"]
+                    "PickEnvSize", "PickSize2", "PickParam", "PickOption", "CheckWF", "PickVerbose", "PickThreads", "PickEnv",
+                    "PickHugeShape", "Finish"]
             for a in need:
                 if res.coverage.get(a, (0, 0))[1] == 0:
                     raise common.MachineryError("vacuity: action %s of KernelCalls never taken (%s)" % (a, sorted(res.coverage)))
@@ -232,8 +257,12 @@ def describe(case):
         if d["n"] or d["m"]:
             bits.append("n=%d m=%d" % (d["n"], d["m"]))
         bits.append("par=%s opt=%d" % (d["par"], d["opt"]))
+        if d.get("vb"):
+            bits.append("verbose=%d" % d["vb"])
         if d.get("nt"):
             bits.append("nt=%d" % d["nt"])
+        if d.get("env"):
+            bits.append("OpenMP environment %d" % d["env"])
         return " ".join(bits)
     return "%s model case" % case["src"]
 
@@ -253,15 +282,32 @@ class Replayer(object):
         self.skip = set()
         self.aborts = {}
         self.sigs = {}          # failure signature -> count; three replay files per signature, the rest counted
+        self.lock = threading.RLock()   # several children run side by side (sanitizer build / normal build): bookkeeping is serial
+        self.out_extra = {"caller_kernels": {}, "options_run": {}, "guarded_calls": {}, "illformed_callers": 0,
+                          "env_compared": 0, "omp": []}
+        self.callers = None
+        self.guard_tags = None
+        self.scalar_args = None
 
-    def run(self, cases, flavour, threads=None, tag="", timeout=3000):
-        """execute `cases` in child processes; a crash is recorded and the run resumes after the offending case"""
+    def run(self, cases, flavour, threads=None, tag="", timeout=3000, omp=None):
+        """execute `cases` in child processes; a crash is recorded and the run resumes after the offending case.
+        omp = (tag, {OMP_* variables}): the child is started under that OpenMP environment"""
         start = 0
         env = child_env(flavour, threads)
-        self.nbatch += 1
+        if omp:
+            for v in ("OMP_NUM_THREADS", "OMP_THREAD_LIMIT", "OMP_DYNAMIC", "OMP_SCHEDULE"):
+                env.pop(v, None)
+            env.update(omp[1])
+            env["C20_OMPENV"] = omp[0]
+        else:
+            env.pop("C20_OMPENV", None)
+        with self.lock:
+            self.nbatch += 1
+            nb = self.nbatch
         d = common.scratch()
-        cpath = os.path.join(d, "c20_cases_%d.jsonl" % self.nbatch)
-        opath = os.path.join(d, "c20_out_%d.json" % self.nbatch)
+        env["C20_SCRATCH"] = d
+        cpath = os.path.join(d, "c20_cases_%d.jsonl" % nb)
+        opath = os.path.join(d, "c20_out_%d.json" % nb)
         with open(cpath, "w") as f:
             for c in cases:
                 f.write(json.dumps(c) + "\n")
@@ -276,6 +322,14 @@ class Replayer(object):
                                    stderr=subprocess.PIPE, text=True, timeout=timeout)
             except subprocess.TimeoutExpired:
                 raise common.MachineryError("driver child (%s %s) timed out after %ds" % (flavour, tag, timeout))
+            with self.lock:
+                start = self._after_child(p, cases, part, start, flavour, threads, tag, opath, omp)
+            if start is None:
+                return
+
+    def _after_child(self, p, cases, part, start, flavour, threads, tag, opath, omp):
+            """bookkeeping of one child run; returns the index to resume at (len(cases): done; None: stop)"""
+            self._omp = omp
             out = None
             if os.path.exists(opath):
                 try:
@@ -302,9 +356,9 @@ class Replayer(object):
                     k = bad["d"]["k"] if "d" in bad else bad.get("src")
                     self.report((flavour, k, re.sub(r"0x[0-9a-f]+|==\d+==|\d+ \* \d+", "", why), frames[0].split(" in ")[-1] if frames else ""),
                                 "%s build%s: %s while executing [%s] %s" % (
-                        "sanitizer" if flavour == "asan" else "normal", " threads=%s" % threads if threads else "", why,
+                        "sanitizer" if flavour == "asan" else "normal", self.tlabel(threads, omp), why,
                         describe(bad), " | ".join(frames)),
-                        {"lines": [bad], "flavour": flavour, "threads": threads, "stderr": p.stderr[-3000:]})
+                        {"lines": [bad], "flavour": flavour, "threads": threads, "omp": omp, "stderr": p.stderr[-3000:]})
                 # the verdicts of the cases before the crash are in the child's side log
                 for ev in self.read_log(opath + ".log"):
                     if ev["idx"] >= last:
@@ -328,14 +382,14 @@ class Replayer(object):
                     if self.aborts[kb] >= 3:
                         self.skip.add(kb)
                 if self.stop():
-                    return
-                continue
+                    return None
+                return start
             self.account([c for c in part[start:] if self.kname(c) not in self.skip], flavour, threads, out)
             self.stats["skipped_after_repeated_abort"] = self.stats.get("skipped_after_repeated_abort", 0) + out.get("skipped", 0)
             for pr in out["problems"]:
                 self.problem(part[pr["idx"]], pr["problems"], flavour, threads)
                 if self.stop():
-                    return
+                    return None
             for idx, why in out["rejected"]:
                 k = part[idx]["d"]["k"]
                 self.rejected.setdefault(k, {"n": 0, "why": why, "example": part[idx]["d"]})["n"] += 1
@@ -350,7 +404,21 @@ class Replayer(object):
             key = "asan" if flavour == "asan" else "thread"
             self.stats[key + "_calls"] += out["calls"]
             self.stats["thread_compared"] += out.get("thread_compared", 0)
-            start = len(cases)
+            x = self.out_extra
+            for k, v in out.get("caller_kernels", {}).items():
+                for kk, nn in v.items():
+                    x["caller_kernels"].setdefault(k, {})[kk] = x["caller_kernels"].get(k, {}).get(kk, 0) + nn
+            for key in ("options_run", "guarded_calls"):
+                for k, v in out.get(key, {}).items():
+                    x[key][k] = x[key].get(k, 0) + v
+            for k, v in out.get("time_s", {}).items():
+                x.setdefault("time_s", {})[k] = round(x.get("time_s", {}).get(k, 0.0) + v, 2)
+            x["illformed_callers"] += out.get("illformed_callers", 0)
+            x["env_compared"] += out.get("env_compared", 0)
+            if omp:
+                x["omp"].append(dict(out.get("omp", {}), cases=len(cases), compared=out.get("env_compared", 0)))
+            self.callers, self.guard_tags, self.scalar_args = out.get("callers"), out.get("guard_tags"), out.get("scalar_args")
+            return len(cases)
 
     @staticmethod
     def read_log(path):
@@ -366,14 +434,21 @@ class Replayer(object):
         return out
 
     @staticmethod
+    def tlabel(threads, omp):
+        if omp:
+            return " under " + " ".join("%s=%s" % kv for kv in sorted(omp[1].items()))
+        return " threads=%s" % threads if threads else ""
+
+    @staticmethod
     def kname(c):
         return c["d"]["k"] if "d" in c else c.get("src")
 
     def report(self, sig, what, obj):
-        n = self.sigs.get(sig, 0)
-        self.sigs[sig] = n + 1
-        if n < 3:
-            self.chk.violation(what, obj)
+        with self.lock:
+            n = self.sigs.get(sig, 0)
+            self.sigs[sig] = n + 1
+            if n < 3:
+                self.chk.violation(what, obj)
 
     def stop(self):
         return len(self.sigs) > 12 or len(self.chk.violations) > 22
@@ -408,10 +483,11 @@ class Replayer(object):
             return
         k = bad["d"]["k"] if "d" in bad else bad.get("src")
         first = re.sub(r"^\[\d+ threads\] ", "", problems[0])
+        first = re.sub(r"^\[(one thread|OpenMP environment [^\]]*)\] ", "", first)
         self.report((flavour, k, re.split(r"[:\[(]", first)[0][:60]), "%s build%s: [%s] %s" % (
-            "sanitizer" if flavour == "asan" else "normal", " threads=%s" % threads if threads else "",
+            "sanitizer" if flavour == "asan" else "normal", self.tlabel(threads, getattr(self, "_omp", None)),
             describe(bad), "; ".join(problems[:3])[:600]),
-            {"lines": [bad], "flavour": flavour, "threads": threads})
+            {"lines": [bad], "flavour": flavour, "threads": threads, "omp": getattr(self, "_omp", None)})
 
     def account(self, cases, flavour, threads, out):
         chk = self.chk
@@ -519,6 +595,148 @@ def crosscheck_threads(chk, iface, thr, rep):
         raise common.MachineryError("vacuity: no result was compared with its single-thread result")
 
 
+def _grouped(cases, key, per_group, rng):
+    groups = {}
+    for c in sorted(cases, key=lambda c: json.dumps(c["d"], sort_keys=True)):      # (TLC's output order varies)
+        groups.setdefault(key(c["d"]), []).append(c)
+    out = []
+    for g in sorted(groups):
+        members = groups[g]
+        n = per_group(g, members)
+        out += members if n >= len(members) else [members[int(i)] for i in rng.choice(len(members), size=n, replace=False)]
+    return out
+
+
+def option_subset(verb, tier):
+    """descriptors with verbose > 0 that run under the sanitizers: thorough all; quick one seeded choice of the remaining
+    classes (second content, parameter, other option) for every (kernel, verbose value, shape / size, content) - two for
+    bloboverlaps, whose label count on the second frame is decided by the second content"""
+    if tier != "quick":
+        return list(verb)
+    rng = np.random.RandomState(common.seed() + 31)
+    return _grouped(verb, lambda d: (d["k"], d["vb"], d["ns"], d["nf"], d["n"], d["c1"]),
+                    lambda g, m: 2 if g[0] == "bloboverlaps" else 1, rng)
+
+
+def caller_subset(wrap, tier):
+    """descriptors of the Python callers: thorough all; quick every descriptor of the overlap callers (label numbering x
+    capacity), one seeded parameter class for every (verbose, shape, contents) of labelimage, a seeded half of the scan
+    callers, the frame functions all"""
+    if tier != "quick":
+        return list(wrap)
+    rng = np.random.RandomState(common.seed() + 32)
+    keep = [c for c in wrap if c["d"]["k"] not in ("py:labelimage", "py:scan_cplabel", "py:scan_lmlabel")]
+    keep += _grouped([c for c in wrap if c["d"]["k"] == "py:labelimage"],
+                     lambda d: (d["vb"], d["ns"], d["nf"], d["c1"], d["c2"]), lambda g, m: 1, rng)
+    keep += _grouped([c for c in wrap if c["d"]["k"] in ("py:scan_cplabel", "py:scan_lmlabel")],
+                     lambda d: (d["k"], d["ns"], d["nf"], d["c1"], d["opt"]), lambda g, m: (len(m) + 1) // 2, rng)
+    return keep
+
+
+def env_subset(envd, tier):
+    """calls made under an OpenMP environment: thorough all; quick the longest lists / largest shapes all, a seeded half
+    of the others"""
+    if tier != "quick":
+        return list(envd)
+    rng = np.random.RandomState(common.seed() + 33)
+    out = []
+    for c in sorted(envd, key=lambda c: json.dumps(c["d"], sort_keys=True)):
+        d = c["d"]
+        if d["n"] > 3 * 4096 or d["ns"] * d["nf"] > 60000 or rng.rand() < 0.5:
+            out.append(c)
+    return out
+
+
+def omp_env(index, rec):
+    env = {"OMP_NUM_THREADS": str(rec["num"])}
+    if rec["limit"]:
+        env["OMP_THREAD_LIMIT"] = str(rec["limit"])
+    if rec["dyn"]:
+        env["OMP_DYNAMIC"] = "true"
+    if rec["sched"] != "-":
+        env["OMP_SCHEDULE"] = rec["sched"]
+    return ("%d" % index, env)
+
+
+def run_jobs(jobs, nworkers):
+    """run the callables on a few threads (each of them waits for a child process); the first exception is raised"""
+    import queue
+    q = queue.Queue()
+    for j in jobs:
+        q.put(j)
+    errors = []
+
+    def work():
+        while not errors:
+            try:
+                j = q.get_nowait()
+            except queue.Empty:
+                return
+            try:
+                j()
+            except BaseException as e:      # noqa
+                errors.append(e)
+    ths = [threading.Thread(target=work) for _ in range(nworkers)]
+    for t in ths:
+        t.start()
+    for t in ths:
+        t.join()
+    if errors:
+        raise errors[0]
+
+
+def crosscheck_options(chk, iface, rep, env_run):
+    """the option / caller / environment dimensions are about the real interface and were executed"""
+    x = rep.out_extra
+    exempt = set(iface["exempt"])
+    # 1. the scalar arguments of the built module (f2py docstrings) are the ones KernelCalls!ScalarArgs assigns a dimension to
+    real = rep.scalar_args or {}
+    for k in sorted(set(iface["interface"]) - exempt):
+        spec = sorted([a[0], a[1]] for a in iface["scalars"].get(k, []))
+        if sorted(real.get(k, [])) != sorted(spec):
+            raise common.MachineryError("interface drift: scalar arguments of %s in the built module %s, in KernelCalls!ScalarArgs %s"
+                                        % (k, real.get(k), spec))
+    # 2. every value of every option / verbose class was executed
+    ran = {}
+    for key, n in x["options_run"].items():
+        k, o, v = key.split("|")
+        ran.setdefault(k, {"opt": set(), "vb": set()})
+        ran[k]["opt"].add(int(o[4:]))
+        ran[k]["vb"].add(int(v[3:]))
+    for k in sorted(iface["opts"]):
+        miss = (set(iface["opts"][k]) - ran.get(k, {}).get("opt", set()), set(iface["verbs"][k]) - ran.get(k, {}).get("vb", set()))
+        if miss[0] or miss[1]:
+            raise common.MachineryError("vacuity: %s was not executed with option value(s) %s / verbose value(s) %s" % (
+                k, sorted(miss[0]), sorted(miss[1])))
+    chk.notes["option_values_executed"] = dict((k, {"opt": sorted(v["opt"]), "verbose": sorted(v["vb"])}) for k, v in ran.items()
+                                               if len(v["opt"]) > 1 or len(v["vb"]) > 1)
+    # 3. the callers exist, went through exactly the kernels KernelCalls!Calls names, and the guard knows KernelCalls!Extents
+    if set(rep.callers or []) != set(iface["callers"]):
+        raise common.MachineryError("caller handlers %s, KernelCalls!Callers %s" % (rep.callers, sorted(iface["callers"])))
+    for w in sorted(iface["callers"]):
+        seen = set(x["caller_kernels"].get(w, {}))
+        if seen != set(iface["callers"][w]):
+            raise common.MachineryError("%s went through the kernels %s, KernelCalls!Calls says %s" % (
+                w, sorted(seen), sorted(iface["callers"][w])))
+    chk.notes["caller_kernel_calls"] = x["caller_kernels"]
+    chk.notes["guarded_kernel_calls"] = x["guarded_calls"]
+    tags = rep.guard_tags or {}
+    for k in sorted(set(iface["interface"]) - exempt):
+        if sorted(tags.get(k, [])) != sorted(iface["extents"].get(k, [])):
+            raise common.MachineryError("preconditions asserted by the guard for %s: %s, KernelCalls!Extents: %s" % (
+                k, tags.get(k, []), iface["extents"].get(k, [])))
+    # 4. the OpenMP environments were what the specification says and results were compared
+    chk.notes["openmp_environments"] = x["omp"]
+    for e, recd in enumerate(iface["envs"]):
+        mine = [o for o in x["omp"] if o.get("env") == "%d" % (e + 1)]
+        if not mine or mine[0]["max_threads"] != recd["num"]:
+            raise common.MachineryError("OpenMP environment %d: child reports %s, KernelCalls!OmpEnvs %s" % (e + 1, mine, recd))
+        if mine[0]["compared"] < 10:
+            raise common.MachineryError("vacuity: OpenMP environment %d: %d results compared with the single-thread result" % (
+                e + 1, mine[0]["compared"]))
+    chk.notes["illformed_caller_descriptors_skipped"] = x["illformed_callers"]
+
+
 # ------------------------------------------------------------------------------------------------
 def crosscheck_interface(chk, iface, rep, desc):
     spec_k = set(iface["interface"]) - set(iface["exempt"])
@@ -550,7 +768,13 @@ def run(tier, replay=None):
                 "of promised outputs and agreement with model / reference; a sample of the large descriptors also at "
                 "1/4/16 threads on the normal build; descriptors of the 23 OpenMP kernels that carry a thread count "
                 "(1,2,3,7,16,31,64 x small shapes, thin strips, all list sizes) run with that many threads on the normal "
-                "build (a seeded fifth also under the sanitizers) and are compared with their single-thread result. "
+                "build (a seeded fifth also under the sanitizers) and are compared with their single-thread result; "
+                "every option value (con8, boundscheck, recompute, label, npx, n, omegasign) and verbose 0/1/2/11 x small "
+                "shapes x contents under the sanitizers; the Python callers that allocate work arrays (overlaps_linear / "
+                "_matrix / overlaps with labels per frame, at / one above the capacity, far above the pixel count; frame "
+                "functions; SparseScan labelling; labelimage x verbose) under the sanitizers with every kernel call guarded "
+                "by the preconditions of KernelCalls!Extents; large calls of every sized kernel in processes started under "
+                "three OpenMP environments whose team differs from omp_get_max_threads(), compared with one thread. "
                 "non-trivial = non-empty content / non-zero size; distinct = distinct (build, descriptor)")
     chk.assumptions = [
         "memory safety is a property of the binary: the specification supplies the call lattice and (for the modelled "
@@ -560,6 +784,9 @@ def run(tier, replay=None):
         "calls outside the documented preconditions (one-column images for connectedpixels / localmaxlabel, one-row "
         "masks for clean_mask, empty images, zero histogram bins, unsorted coo lists, labels above npk) are outside the "
         "quantifier; zero-length lists are rejected by the f2py wrappers and recorded as such",
+        "the guard sees the calls made through ImageD11.cImageD11.<kernel> (how the library's Python code calls the kernels); "
+        "callers outside ImageD11.sparseframe / ImageD11.labelimage and the routes of the re-used models are not driven",
+        "OMP_DYNAMIC leaves the team size to the runtime: that environment may deliver the full team on an idle machine",
     ]
     common.build_shadow("normal")
     if replay:
@@ -568,27 +795,51 @@ def run(tier, replay=None):
     desc, iface, model = run_all_tlc(chk, tier)
     chk.notes["tlc_s"] = round(time.time() - t0, 1)
     rep = Replayer(chk)
-    thr = thread_order([c for c in desc if c["d"].get("nt", 0) > 0])
-    plain = [c for c in desc if c["d"].get("nt", 0) == 0]
-    t0 = time.time()
-    rep.run(thr, "normal", tag="thread counts")
-    chk.notes["thread_count_descriptors"] = len(thr)
-    chk.notes["thread_count_descriptors_s"] = round(time.time() - t0, 1)
-    if not chk.violations:
-        crosscheck_threads(chk, iface, thr, rep)
-    t0 = time.time()
-    rep.run(plain + thread_asan_subset(thr, tier), "asan", tag="descriptors")
-    chk.notes["asan_descriptors_s"] = round(time.time() - t0, 1)
-    if not chk.violations:          # (with violations the picture of the child's bookkeeping may be incomplete)
-        crosscheck_interface(chk, iface, rep, desc)
-    t0 = time.time()
-    rep.run(model, "asan", tag="model cases")
-    chk.notes["asan_model_cases_s"] = round(time.time() - t0, 1)
-    t0 = time.time()
+    wrap = [c for c in desc if c["d"]["k"].startswith("py:")]
+    kern = [c for c in desc if not c["d"]["k"].startswith("py:")]
+    thr = thread_order([c for c in kern if c["d"].get("nt", 0) > 0])
+    envd = [c for c in kern if c["d"].get("env", 0) > 0]
+    verb = [c for c in kern if c["d"].get("vb", 0) > 0]
+    plain = [c for c in kern if not (c["d"].get("nt", 0) or c["d"].get("env", 0) or c["d"].get("vb", 0))]
+    verb_run, wrap_run, env_run = option_subset(verb, tier), caller_subset(wrap, tier), env_subset(envd, tier)
+    asan = plain + verb_run + wrap_run + thread_asan_subset(thr, tier)
+    nchunk = 3
+    order = sorted(range(len(asan)), key=lambda i: (i % nchunk, i))             # round robin: equal shares of every family
+    chunks = [[asan[i] for i in order if i % nchunk == q] for q in range(nchunk)]
     sub = thread_subset(plain, tier)
     sa = [c for c in model if c["src"] == "scoreassign" and c.get("reps", 1) > 1]
-    rep.run(sub + sa, "normal", threads=THREADS, tag="threads")
-    chk.notes["thread_sweep_s"] = round(time.time() - t0, 1)
+    envs = iface["envs"]
+    times = {}
+
+    def timed(name, fn):
+        def go():
+            t1 = time.time()
+            fn()
+            times[name] = round(time.time() - t1, 1)
+        return go
+
+    def normal_sequence():      # (one after the other: each of them uses many threads)
+        timed("thread_count_descriptors_s", lambda: rep.run(thr, "normal", tag="thread counts"))()
+        timed("thread_sweep_s", lambda: rep.run(sub + sa, "normal", threads=THREADS, tag="threads"))()
+
+    jobs = [timed("asan_descriptors_%d_s" % q, (lambda ch: lambda: rep.run(ch, "asan", tag="descriptors"))(chunks[q])) for q in range(nchunk)]
+    jobs.append(normal_sequence)
+    for e, rec in enumerate(envs):
+        part = [c for c in env_run if c["d"]["env"] == e + 1]
+        jobs.append(timed("openmp_environment_%d_s" % (e + 1),
+                          (lambda pt, om: lambda: rep.run(pt, "normal", tag="OpenMP environment", omp=om))(part, omp_env(e + 1, rec))))
+    jobs.append(timed("asan_model_cases_s", lambda: rep.run(model, "asan", tag="model cases")))
+    t0 = time.time()
+    run_jobs(jobs, 5)
+    chk.notes["replay_wall_s"] = round(time.time() - t0, 1)
+    chk.notes["phase_s"] = times
+    chk.notes["thread_count_descriptors"] = len(thr)
+    chk.notes["descriptors"] = {"plain": len(plain), "thread_count": len(thr), "verbose": [len(verb), len(verb_run)],
+                                "openmp_environment": [len(envd), len(env_run)], "callers": [len(wrap), len(wrap_run)]}
+    if not chk.violations:          # (with violations the picture of the child's bookkeeping may be incomplete)
+        crosscheck_threads(chk, iface, thr, rep)
+        crosscheck_interface(chk, iface, rep, kern)
+        crosscheck_options(chk, iface, rep, env_run)
     chk.notes.update(rep.stats)
     chk.notes["thread_counts"] = THREADS
     chk.notes["thread_counts_of_the_lattice"] = sorted(iface.get("nts", []))
@@ -616,7 +867,9 @@ def run_replay(chk, path):
         chk.violations.append((what, path))
         print("  violation: %s" % what)
     chk.violation = violation
-    rep.run(case["lines"], case.get("flavour", "asan"), threads=case.get("threads"), tag="replay")
+    omp = case.get("omp")
+    rep.run(case["lines"], case.get("flavour", "asan"), threads=case.get("threads"), tag="replay",
+            omp=(omp[0], omp[1]) if omp else None)
     if case.get("flavour", "asan") != "asan":
         rep.run(case["lines"], "asan", tag="replay")
     chk.sample(case["lines"][0])
@@ -696,4 +949,33 @@ def selftest():
               {"src": "kc", "d": dict(lm, nt=7), "thr": {"E": 15, "tag": "ndiv", "gtrows": True}, "mat": {}}], "normal", tag="selftest")
     if fake.violations or rep2.stats["thread_compared"] != 1 or rep2.stats["thread_calls"] != 2:
         raise common.MachineryError("selftest: thread-count descriptors: %s %s" % (fake.violations, rep2.stats))
+    # 5. the guard on the calls of Python callers: a caller that hands compress_duplicates a histogram shorter than its
+    #    largest label / bloboverlaps fewer result rows than peaks is reported (on the normal build too: the verdict does not
+    #    rest on what lies behind the array), a well-formed caller with labels far above the pixel count is not
+    w0 = {"ns": 2, "nf": 2, "c1": "full", "c2": "same", "n": 0, "m": 0, "par": "far", "opt": 1, "big": False, "vb": 0, "nt": 0, "env": 0}
+    for flavour in ("normal", "asan"):
+        for k, needle in (("py:selftest_short_tmp", "max(i, j) < len(tmp)"), ("py:selftest_short_results", "rows(results1) >= npk1")):
+            fake.violations = []
+            rep3 = Replayer(fake)
+            rep3.run([{"src": "kc", "d": dict(w0, k=k), "mat": {}}], flavour, tag="selftest")
+            if not any(needle in v for v in fake.violations):
+                raise common.MachineryError("selftest: %s on the %s build not reported by the guard: %s" % (k, flavour, fake.violations))
+    fake.violations = []
+    rep3 = Replayer(fake)
+    rep3.run([{"src": "kc", "d": dict(w0, k="py:overlaps_linear"), "mat": {}},
+              {"src": "kc", "d": dict(w0, k="py:labelimage", par="zero", opt=0, vb=2), "mat": {}}], "asan", tag="selftest")
+    ck = rep3.out_extra["caller_kernels"]
+    if fake.violations or "compress_duplicates" not in ck.get("py:overlaps_linear", {}) or "bloboverlaps" not in ck.get("py:labelimage", {}):
+        raise common.MachineryError("selftest: well-formed callers: %s %s" % (fake.violations, ck))
+    # 6. a call under an OpenMP environment really runs in a process whose team differs from omp_get_max_threads(), and
+    #    is compared with its single-thread result
+    ed = {"k": "array_stats", "ns": 0, "nf": 0, "c1": "-", "c2": "-", "n": 32769, "m": 0, "par": "ramp", "opt": 0, "big": False,
+          "vb": 0, "nt": 0, "env": 1}
+    fake.violations = []
+    rep4 = Replayer(fake)
+    rep4.run([{"src": "kc", "d": ed, "mat": {}}], "normal", tag="selftest",
+             omp=omp_env(1, {"num": 8, "limit": 3, "dyn": False, "sched": "-"}))
+    o = rep4.out_extra["omp"]
+    if fake.violations or not o or o[0]["max_threads"] != 8 or o[0]["compared"] != 1:
+        raise common.MachineryError("selftest: OpenMP environment child: %s %s" % (fake.violations, o))
     return True
